@@ -1,1 +1,735 @@
 import Goflow.Spec.Netflow
+import Proofs.Lemmas.Fields
+import Proofs.Lemmas.Netflow
+/-!
+  C03 — NetFlow v9 / IPFIX wire decoding is exact: decode (encode M) = M for every well-formed
+  abstract message M, where `encode` is the RFC 3954 / RFC 7011 encoder of Goflow/Spec/Netflow.lean.
+  The proof is layered: field specifier → template record → template set → data record → data set →
+  set → message.
+-/
+namespace Goflow.C03
+open Goflow Goflow.Netflow Goflow.Spec.Netflow
+
+/-! ### well-formedness of the abstract message (decidable) -/
+
+/-- a field specifier fits the wire format; v9 has neither enterprise fields nor variable length -/
+def FieldWF (version : Nat) (f : SField) : Prop :=
+  f.id < 0x8000 ∧ f.length < 65536 ∧
+  (match f.ent with | some pen => pen < 2 ^ 32 ∧ version = 10 | none => True) ∧
+  (version = 9 → f.length ≠ 0xffff)
+
+instance (version : Nat) (f : SField) : Decidable (FieldWF version f) := by
+  unfold FieldWF; cases f.ent <;> infer_instance
+
+/-- a value fits its field: fixed length exactly; variable length below 2^16, short form only below 255 -/
+def ValueWF (f : SField) (v : SValue) : Prop :=
+  if f.length = 0xffff then v.bytes.length < 65536 ∧ (v.long = false → v.bytes.length < 255)
+  else v.bytes.length = f.length
+
+instance (f : SField) (v : SValue) : Decidable (ValueWF f v) := by unfold ValueWF; infer_instance
+
+def RecordWF : List SField → List SValue → Prop
+  | [], [] => True
+  | f :: fs, v :: vs => ValueWF f v ∧ RecordWF fs vs
+  | _, _ => False
+
+/-! ### field specifiers -/
+
+private theorem readFields2 (a b : Nat) (rest : Bytes) (ha : a < 65536) (hb : b < 65536) :
+    readFields [2, 2] (encBE 2 a ++ (encBE 2 b ++ rest)) = .ok ([a, b], rest) := by
+  have : Fits [2, 2] [a, b] := by simp [Fits]; omega
+  have := readFields_enc [2, 2] [a, b] rest this
+  simpa [encFields] using this
+
+private theorem readFields3 (a b c : Nat) (rest : Bytes) (ha : a < 65536) (hb : b < 65536) (hc : c < 65536) :
+    readFields [2, 2, 2] (encBE 2 a ++ (encBE 2 b ++ (encBE 2 c ++ rest))) = .ok ([a, b, c], rest) := by
+  have : Fits [2, 2, 2] [a, b, c] := by simp [Fits]; omega
+  have := readFields_enc [2, 2, 2] [a, b, c] rest this
+  simpa [encFields] using this
+
+/-- one field specifier of a template record (the loop body of DecodeTemplateSet) and the whole
+    field list: ids, lengths, enterprise bit and enterprise numbers come back exactly -/
+theorem field_roundtrip (version : Nat) (fs : List SField) (rest : Bytes)
+    (hwf : ∀ f ∈ fs, FieldWF version f) :
+    decodeTemplateFields version fs.length (fs.flatMap encField ++ rest) = .ok (fs.map expField, rest) := by
+  induction fs with
+  | nil => simp [decodeTemplateFields]
+  | cons f fs ih =>
+    have hf := hwf f (by simp)
+    have ih' := ih (fun g hg => hwf g (by simp [hg]))
+    obtain ⟨hid, hlen, hent, _⟩ := hf
+    simp only [List.length_cons, List.flatMap_cons, List.map_cons, List.append_assoc]
+    unfold decodeTemplateFields
+    cases he : f.ent with
+    | none =>
+      simp only [encField, he, List.append_assoc]
+      rw [readFields2 _ _ _ (by omega) hlen]
+      have : ¬ (version = 10 ∧ f.id ≥ 0x8000) := by omega
+      simp only [this, if_false, ih', expField, he]
+    | some pen =>
+      rw [he] at hent
+      obtain ⟨hpen, hv⟩ := hent
+      subst hv
+      simp only [encField, he, List.append_assoc]
+      rw [readFields2 _ _ _ (by omega) hlen]
+      have : 10 = 10 ∧ f.id + 0x8000 ≥ 0x8000 := ⟨rfl, by omega⟩
+      simp only [this, and_self, if_true]
+      rw [readU_enc _ (by simpa using hpen)]
+      simp only
+      rw [ih']
+      simp only [expField, he, Nat.add_sub_cancel]
+
+/-- the same for the field specifiers of options templates (DecodeField) -/
+theorem optionField_roundtrip (version : Nat) (fs : List SField) (rest : Bytes)
+    (hwf : ∀ f ∈ fs, FieldWF version f) :
+    decodeFieldsN (version == 10) fs.length (fs.flatMap encField ++ rest) = .ok (fs.map expField, rest) := by
+  induction fs with
+  | nil => simp [decodeFieldsN]
+  | cons f fs ih =>
+    have hf := hwf f (by simp)
+    have ih' := ih (fun g hg => hwf g (by simp [hg]))
+    obtain ⟨hid, hlen, hent, _⟩ := hf
+    simp only [List.length_cons, List.flatMap_cons, List.map_cons, List.append_assoc]
+    unfold decodeFieldsN decodeField
+    cases he : f.ent with
+    | none =>
+      simp only [encField, he, List.append_assoc]
+      rw [readFields2 _ _ _ (by omega) hlen]
+      have : ¬ ((version == 10) = true ∧ f.id ≥ 0x8000) := by omega
+      simp only [this, if_false, ih', expField, he]
+    | some pen =>
+      rw [he] at hent
+      obtain ⟨hpen, hv⟩ := hent
+      subst hv
+      simp only [encField, he, List.append_assoc]
+      rw [readFields2 _ _ _ (by omega) hlen]
+      have : ((10:Nat) == 10) = true ∧ f.id + 0x8000 ≥ 0x8000 := ⟨rfl, by omega⟩
+      simp only [this, and_self, if_true]
+      rw [readU_enc _ (by simpa using hpen)]
+      simp only
+      have ih'' : decodeFieldsN true fs.length (List.flatMap encField fs ++ rest) = .ok (fs.map expField, rest) := ih'
+      rw [ih'']
+      simp only [expField, he, Nat.add_sub_cancel]
+
+/-! ### template sets -/
+
+def TemplateRecWF (version : Nat) (r : Nat × List SField) : Prop :=
+  r.1 < 65536 ∧ r.2.length < 65536 ∧ ∀ f ∈ r.2, FieldWF version f
+
+/-- DecodeTemplateSet on the encoded records followed by fewer than 4 padding bytes -/
+theorem templateSet_roundtrip (version : Nat) (recs : List (Nat × List SField)) (pad : Bytes) (fuel : Nat)
+    (hwf : ∀ r ∈ recs, TemplateRecWF version r) (hpad : pad.length < 4) (hfuel : recs.length < fuel) :
+    decodeTemplateSet version fuel (recs.flatMap encTemplateRec ++ pad) =
+      .ok (recs.map fun r => ⟨r.1, r.2.length, r.2.map expField⟩) := by
+  induction recs generalizing fuel with
+  | nil =>
+    cases fuel with
+    | zero => simp at hfuel
+    | succ fuel =>
+      have : ¬ 4 ≤ pad.length := by omega
+      simp [decodeTemplateSet, this]
+  | cons r recs ih =>
+    cases fuel with
+    | zero => simp at hfuel
+    | succ fuel =>
+      obtain ⟨tid, fs⟩ := r
+      obtain ⟨htid, hn, hfs⟩ := hwf (tid, fs) (by simp)
+      simp only at htid hn hfs
+      have ih' := ih fuel (fun q hq => hwf q (by simp [hq])) (by simpa using hfuel)
+      simp only [List.flatMap_cons, encTemplateRec, List.append_assoc, List.map_cons]
+      unfold decodeTemplateSet
+      have hlen : 4 ≤ (encBE 2 tid ++ (encBE 2 fs.length ++ (List.flatMap encField fs ++
+          (List.flatMap encTemplateRec recs ++ pad)))).length := by
+        simp only [List.length_append, encBE_length]; omega
+      simp only [hlen, if_true]
+      rw [readFields2 _ _ _ htid hn]
+      simp only
+      rw [field_roundtrip version fs _ hfs]
+      simp only
+      rw [ih']
+
+def OptsRecWF (version : Nat) (r : Nat × List SField × List SField) : Prop :=
+  r.1 < 65536 ∧ 4 * r.2.1.length < 65536 ∧ 4 * r.2.2.length < 65536 ∧ r.2.1.length + r.2.2.length < 65536 ∧
+  (∀ f ∈ r.2.1, FieldWF version f) ∧ (∀ f ∈ r.2.2, FieldWF version f)
+
+/-- NetFlow v9 options template set: scope / option split by byte lengths -/
+theorem optionsTemplateSet_roundtrip_v9 (recs : List (Nat × List SField × List SField)) (pad : Bytes) (fuel : Nat)
+    (hwf : ∀ r ∈ recs, OptsRecWF 9 r) (hpad : pad.length < 4) (hfuel : recs.length < fuel) :
+    decodeNFv9OptionsTemplateSet fuel (recs.flatMap encV9OptsRec ++ pad) =
+      .ok (recs.map fun r => ⟨r.1, 4 * r.2.1.length, 4 * r.2.2.length, r.2.1.map expField, r.2.2.map expField⟩) := by
+  induction recs generalizing fuel with
+  | nil =>
+    cases fuel with
+    | zero => simp at hfuel
+    | succ fuel =>
+      have : ¬ 4 ≤ pad.length := by omega
+      simp [decodeNFv9OptionsTemplateSet, this]
+  | cons r recs ih =>
+    cases fuel with
+    | zero => simp at hfuel
+    | succ fuel =>
+      obtain ⟨tid, ss, os⟩ := r
+      obtain ⟨htid, hs, ho, _, hss, hos⟩ := hwf (tid, ss, os) (by simp)
+      simp only at htid hs ho hss hos
+      have ih' := ih fuel (fun q hq => hwf q (by simp [hq])) (by simpa using hfuel)
+      simp only [List.flatMap_cons, encV9OptsRec, List.append_assoc, List.map_cons]
+      unfold decodeNFv9OptionsTemplateSet
+      have hlen : 4 ≤ (encBE 2 tid ++ (encBE 2 (4 * ss.length) ++ (encBE 2 (4 * os.length) ++ (List.flatMap encField ss ++
+          (List.flatMap encField os ++ (List.flatMap encV9OptsRec recs ++ pad)))))).length := by
+        simp only [List.length_append, encBE_length]; omega
+      simp only [hlen, if_true]
+      rw [readFields3 _ _ _ _ htid hs ho]
+      simp only
+      have e1 : 4 * ss.length / 4 = ss.length := by omega
+      have e2 : 4 * os.length / 4 = os.length := by omega
+      rw [e1, e2]
+      have h1 := optionField_roundtrip 9 ss (List.flatMap encField os ++ (List.flatMap encV9OptsRec recs ++ pad)) hss
+      have h1' : decodeFieldsN false ss.length (List.flatMap encField ss ++ (List.flatMap encField os ++
+          (List.flatMap encV9OptsRec recs ++ pad))) = .ok (ss.map expField, _) := h1
+      rw [h1']
+      simp only
+      have h2 : decodeFieldsN false os.length (List.flatMap encField os ++ (List.flatMap encV9OptsRec recs ++ pad))
+          = .ok (os.map expField, _) := optionField_roundtrip 9 os _ hos
+      rw [h2]
+      simp only
+      rw [ih']
+
+/-- IPFIX options template set: scope / option split by field counts -/
+theorem optionsTemplateSet_roundtrip_ipfix (recs : List (Nat × List SField × List SField)) (pad : Bytes) (fuel : Nat)
+    (hwf : ∀ r ∈ recs, OptsRecWF 10 r) (hpad : pad.length < 4) (hfuel : recs.length < fuel) :
+    decodeIPFIXOptionsTemplateSet fuel (recs.flatMap encIPFIXOptsRec ++ pad) =
+      .ok (recs.map fun r => ⟨r.1, r.2.1.length + r.2.2.length, r.2.1.length, r.2.2.map expField, r.2.1.map expField⟩) := by
+  induction recs generalizing fuel with
+  | nil =>
+    cases fuel with
+    | zero => simp at hfuel
+    | succ fuel =>
+      have : ¬ 4 ≤ pad.length := by omega
+      simp [decodeIPFIXOptionsTemplateSet, this]
+  | cons r recs ih =>
+    cases fuel with
+    | zero => simp at hfuel
+    | succ fuel =>
+      obtain ⟨tid, ss, os⟩ := r
+      obtain ⟨htid, hs, ho, hso, hss, hos⟩ := hwf (tid, ss, os) (by simp)
+      simp only at htid hs ho hso hss hos
+      have ih' := ih fuel (fun q hq => hwf q (by simp [hq])) (by simpa using hfuel)
+      simp only [List.flatMap_cons, encIPFIXOptsRec, List.append_assoc, List.map_cons]
+      unfold decodeIPFIXOptionsTemplateSet
+      have hlen : 4 ≤ (encBE 2 tid ++ (encBE 2 (ss.length + os.length) ++ (encBE 2 ss.length ++ (List.flatMap encField ss ++
+          (List.flatMap encField os ++ (List.flatMap encIPFIXOptsRec recs ++ pad)))))).length := by
+        simp only [List.length_append, encBE_length]; omega
+      simp only [hlen, if_true]
+      rw [readFields3 _ _ _ _ htid hso (by omega)]
+      simp only
+      have h1' : decodeFieldsN true ss.length (List.flatMap encField ss ++ (List.flatMap encField os ++
+          (List.flatMap encIPFIXOptsRec recs ++ pad))) = .ok (ss.map expField, _) := optionField_roundtrip 10 ss _ hss
+      rw [h1']
+      simp only
+      have hlt : ¬ ss.length + os.length < ss.length := by omega
+      simp only [hlt, if_false, Nat.add_sub_cancel_left]
+      have h2 : decodeFieldsN true os.length (List.flatMap encField os ++ (List.flatMap encIPFIXOptsRec recs ++ pad))
+          = .ok (os.map expField, _) := optionField_roundtrip 10 os _ hos
+      rw [h2]
+      simp only
+      rw [ih']
+
+/-! ### data records -/
+
+private theorem expField_length (f : SField) : (expField f).length = f.length := by
+  unfold expField; cases f.ent <;> rfl
+
+private theorem nextN_append (x rest : Bytes) : nextN x.length (x ++ rest) = (x, rest) := by
+  simp [nextN]
+
+private theorem readU1_cons (x : UInt8) (rest : Bytes) : readU 1 (x :: rest) = .ok (x.toNat, rest) := by
+  have : readU 1 ([x] ++ rest) = .ok (beNat [x], rest) := readU_append [x] rest rfl
+  simpa [beNat] using this
+
+/-- one data record: every field value comes back byte for byte, in order — fixed-length fields,
+    variable-length fields with the 1-byte and with the 3-byte length prefix, enterprise fields -/
+theorem record_roundtrip (tpl : List SField) (vals : List SValue) (rest : Bytes) (hwf : RecordWF tpl vals) :
+    decodeFieldValues (tpl.map expField) (encRecord tpl vals ++ rest) = .ok (expRecord tpl vals, rest) := by
+  induction tpl generalizing vals with
+  | nil => cases vals <;> simp_all [RecordWF, decodeFieldValues, encRecord, expRecord]
+  | cons f fs ih =>
+    cases vals with
+    | nil => simp [RecordWF] at hwf
+    | cons v vs =>
+      obtain ⟨hv, hrest⟩ := hwf
+      have ih' := ih vs hrest
+      simp only [List.map_cons, encRecord, expRecord, List.append_assoc]
+      unfold decodeFieldValues
+      simp only [expField_length]
+      unfold ValueWF at hv
+      have hdf : (⟨(expField f).penProvided, (expField f).type, (expField f).pen, some v.bytes⟩ : DataField) = expDataField f v := by
+        unfold expField expDataField; cases f.ent <;> rfl
+      by_cases hvar : f.length = 0xffff
+      · simp only [hvar, if_true] at hv ⊢
+        obtain ⟨h16, hshort⟩ := hv
+        unfold encValue
+        simp only [hvar, if_true]
+        by_cases hlong : v.long = true
+        · simp only [hlong, if_true, List.append_assoc, List.singleton_append, List.cons_append]
+          rw [readU1_cons]
+          simp only [show (255 : UInt8).toNat = 0xff by rfl, if_true, List.nil_append]
+          rw [readU_enc (n := 2) (v := v.bytes.length) _ (by simpa using h16)]
+          simp only
+          rw [nextN_append, ih', hdf]
+        · have hl : v.long = false := by simpa using hlong
+          have h255 := hshort hl
+          simp only [hl, Bool.false_eq_true, if_false, List.append_assoc]
+          rw [readU_enc (n := 1) (v := v.bytes.length) _ (by simp; omega)]
+          have : ¬ v.bytes.length = 0xff := by omega
+          simp only [this, if_false]
+          rw [nextN_append, ih', hdf]
+      · simp only [hvar, if_false] at hv ⊢
+        unfold encValue
+        simp only [hvar, if_false]
+        rw [← hv, nextN_append, ih', hdf]
+
+/-! ### data sets -/
+
+private theorem templateSize_map_cons (f : SField) (fs : List SField) :
+    templateSize ((f :: fs).map expField) = (if f.length = 0xffff then 1 else f.length) + templateSize (fs.map expField) := by
+  rw [List.map_cons, templateSize_cons, expField_length]
+
+/-- an encoded record occupies at least the template's minimal record size -/
+theorem encRecord_length_ge (tpl : List SField) (vals : List SValue) (hwf : RecordWF tpl vals) :
+    templateSize (tpl.map expField) ≤ (encRecord tpl vals).length := by
+  induction tpl generalizing vals with
+  | nil => simp [templateSize]
+  | cons f fs ih =>
+    cases vals with
+    | nil => simp [RecordWF] at hwf
+    | cons v vs =>
+      obtain ⟨hv, hrest⟩ := hwf
+      have := ih vs hrest
+      rw [templateSize_map_cons]
+      simp only [encRecord, List.length_append]
+      unfold ValueWF at hv
+      unfold encValue
+      by_cases hvar : f.length = 0xffff
+      · simp only [hvar, if_true] at hv ⊢
+        by_cases hl : v.long = true <;> simp [hl] <;> omega
+      · simp only [hvar, if_false] at hv ⊢
+        omega
+
+/-- DecodeDataSet: all records of the set, in order, then padding shorter than one record -/
+theorem dataSet_roundtrip (tpl : List SField) (records : List (List SValue)) (pad : Bytes) (fuel : Nat)
+    (hwf : ∀ r ∈ records, RecordWF tpl r) (hpos : 0 < templateSize (tpl.map expField))
+    (hpad : pad.length < templateSize (tpl.map expField)) (hfuel : records.length < fuel) :
+    decodeDataSet (tpl.map expField) fuel (records.flatMap (encRecord tpl) ++ pad) =
+      .ok (records.map fun r => ⟨expRecord tpl r⟩) := by
+  unfold decodeDataSet
+  have : ¬ templateSize (tpl.map expField) = 0 := by omega
+  simp only [this, if_false]
+  induction records generalizing fuel with
+  | nil =>
+    cases fuel with
+    | zero => simp at hfuel
+    | succ fuel =>
+      have : ¬ templateSize (tpl.map expField) ≤ pad.length := by omega
+      simp [decodeDataSetLoop, this]
+  | cons r rs ih =>
+    cases fuel with
+    | zero => simp at hfuel
+    | succ fuel =>
+      have hr := hwf r (by simp)
+      have ih' := ih fuel (fun q hq => hwf q (by simp [hq])) (by simpa using hfuel)
+      have hge := encRecord_length_ge tpl r hr
+      simp only [List.flatMap_cons, List.append_assoc, List.map_cons]
+      unfold decodeDataSetLoop
+      have hle : templateSize (tpl.map expField) ≤ (encRecord tpl r ++ (List.flatMap (encRecord tpl) rs ++ pad)).length := by
+        simp only [List.length_append]; omega
+      simp only [hle, if_true, decodeDataSetUsingFields]
+      rw [record_roundtrip tpl r _ hr]
+      simp only
+      rw [ih']
+
+/-- DecodeOptionsDataSet: scope values and option values of every record -/
+theorem optionsDataSet_roundtrip (scopes options : List SField) (records : List (List SValue × List SValue))
+    (pad : Bytes) (fuel : Nat)
+    (hwf : ∀ r ∈ records, RecordWF scopes r.1 ∧ RecordWF options r.2)
+    (hpos : 0 < templateSize (scopes.map expField) + templateSize (options.map expField))
+    (hpad : pad.length < templateSize (scopes.map expField) + templateSize (options.map expField))
+    (hfuel : records.length < fuel) :
+    decodeOptionsDataSet (scopes.map expField) (options.map expField) fuel
+        (records.flatMap (fun r => encRecord scopes r.1 ++ encRecord options r.2) ++ pad) =
+      .ok (records.map fun r => ⟨expRecord scopes r.1, expRecord options r.2⟩) := by
+  unfold decodeOptionsDataSet
+  have : ¬ templateSize (scopes.map expField) + templateSize (options.map expField) = 0 := by omega
+  simp only [this, if_false]
+  induction records generalizing fuel with
+  | nil =>
+    cases fuel with
+    | zero => simp at hfuel
+    | succ fuel =>
+      have : ¬ templateSize (scopes.map expField) + templateSize (options.map expField) ≤ pad.length := by omega
+      simp [decodeOptionsDataSetLoop, this]
+  | cons r rs ih =>
+    cases fuel with
+    | zero => simp at hfuel
+    | succ fuel =>
+      obtain ⟨hs, ho⟩ := hwf r (by simp)
+      have ih' := ih fuel (fun q hq => hwf q (by simp [hq])) (by simpa using hfuel)
+      have hges := encRecord_length_ge scopes r.1 hs
+      have hgeo := encRecord_length_ge options r.2 ho
+      simp only [List.flatMap_cons, List.append_assoc, List.map_cons]
+      unfold decodeOptionsDataSetLoop
+      have hle : templateSize (scopes.map expField) + templateSize (options.map expField) ≤
+          (encRecord scopes r.1 ++ (encRecord options r.2 ++ (List.flatMap (fun r => encRecord scopes r.1 ++ encRecord options r.2) rs ++ pad))).length := by
+        simp only [List.length_append]; omega
+      have hle1 : templateSize (scopes.map expField) ≤
+          (encRecord scopes r.1 ++ (encRecord options r.2 ++ (List.flatMap (fun r => encRecord scopes r.1 ++ encRecord options r.2) rs ++ pad))).length := by
+        simp only [List.length_append]; omega
+      have hle2 : templateSize (options.map expField) ≤
+          (encRecord options r.2 ++ (List.flatMap (fun r => encRecord scopes r.1 ++ encRecord options r.2) rs ++ pad)).length := by
+        simp only [List.length_append]; omega
+      simp only [hle, if_true, decodeDataSetUsingFields, hle1]
+      rw [record_roundtrip scopes r.1 _ hs]
+      simp only [hle2, if_true]
+      rw [record_roundtrip options r.2 _ ho]
+      simp only
+      rw [ih']
+
+/-! ### sets -/
+
+/-- the store after a set has been processed: template and options-template sets announce, data sets do not -/
+def setStore (version dom : Nat) (s : Store) (set : SSet) : Store := addTemplates version dom s (announces set)
+
+/-- well-formedness of one set against the store in force when it is decoded (templates of the
+    initial store or announced earlier in the message) -/
+def SetWF (version dom : Nat) (s : Store) : SSet → Prop
+  | .template recs pad =>
+      (version = 9 ∨ version = 10) ∧ (∀ r ∈ recs, TemplateRecWF version r) ∧ pad < 4 ∧
+      4 + (recs.flatMap encTemplateRec).length + pad < 65536
+  | .v9opts recs pad =>
+      version = 9 ∧ (∀ r ∈ recs, OptsRecWF 9 r) ∧ pad < 4 ∧ 4 + (recs.flatMap encV9OptsRec).length + pad < 65536
+  | .ipfixopts recs pad =>
+      version = 10 ∧ (∀ r ∈ recs, OptsRecWF 10 r) ∧ pad < 4 ∧ 4 + (recs.flatMap encIPFIXOptsRec).length + pad < 65536
+  | .data tid tpl records pad =>
+      256 ≤ tid ∧ tid < 65536 ∧
+      s.get (templateKey version dom tid) = some (.data ⟨tid, tpl.length, tpl.map expField⟩) ∧
+      (∀ r ∈ records, RecordWF tpl r) ∧ 0 < templateSize (tpl.map expField) ∧ pad < templateSize (tpl.map expField) ∧
+      4 + (records.flatMap (encRecord tpl)).length + pad < 65536
+  | .optsData tid scopes options records pad =>
+      256 ≤ tid ∧ tid < 65536 ∧
+      (s.get (templateKey version dom tid) = some (.v9opts ⟨tid, 4 * scopes.length, 4 * options.length, scopes.map expField, options.map expField⟩) ∨
+       s.get (templateKey version dom tid) = some (.ipfixopts ⟨tid, scopes.length + options.length, scopes.length, options.map expField, scopes.map expField⟩)) ∧
+      (∀ r ∈ records, RecordWF scopes r.1 ∧ RecordWF options r.2) ∧
+      0 < templateSize (scopes.map expField) + templateSize (options.map expField) ∧
+      pad < templateSize (scopes.map expField) + templateSize (options.map expField) ∧
+      4 + (records.flatMap fun r => encRecord scopes r.1 ++ encRecord options r.2).length + pad < 65536
+
+private theorem flatMap_length_ge {α} (xs : List α) (f : α → Bytes) (k : Nat) (h : ∀ x ∈ xs, k ≤ (f x).length) :
+    k * xs.length ≤ (xs.flatMap f).length := by
+  induction xs with
+  | nil => simp
+  | cons x xs ih =>
+    have h1 := h x (by simp)
+    have h2 := ih (fun y hy => h y (by simp [hy]))
+    simp only [List.flatMap_cons, List.length_append, List.length_cons, Nat.mul_succ]
+    omega
+
+private theorem zeros_length (n : Nat) : (zeros n).length = n := by simp [zeros]
+
+private theorem encSet_shape (id : Nat) (body : Bytes) (pad : Nat) (rest : Bytes)
+    (hid : id < 65536) (hlen : 4 + body.length + pad < 65536) :
+    readFields [2, 2] (encSet id body pad ++ rest) = .ok ([id, 4 + body.length + pad], body ++ zeros pad ++ rest) ∧
+    nextN (4 + body.length + pad - 4) (body ++ zeros pad ++ rest) = (body ++ zeros pad, rest) := by
+  constructor
+  · unfold encSet
+    simp only [List.append_assoc]
+    exact readFields2 _ _ _ hid hlen
+  · have : 4 + body.length + pad - 4 = (body ++ zeros pad).length := by simp [zeros_length]; omega
+    rw [this]
+    exact nextN_append _ _
+
+/-- DecodeMessageCommonFlowSet on one encoded set, any kind: the decoded set is the expected one,
+    nothing is reported missing, the store afterwards holds the announced templates, and exactly
+    the bytes of the set are consumed. `fuel` only has to exceed the number of records of the set. -/
+theorem flowSet_roundtrip (version dom : Nat) (s : Store) (set : SSet) (rest : Bytes) (fuel : Nat)
+    (hwf : SetWF version dom s set) (hfuel : (encSSet version set).length < fuel) :
+    ∃ o, decodeFlowSet fuel version dom s (encSSet version set ++ rest) = .ok o ∧
+      o.flowSet = expSet version set ∧ o.tnf = false ∧ o.store = setStore version dom s set ∧ o.rest = rest := by
+  cases set with
+  | template recs pad =>
+    obtain ⟨hv, hrecs, hpad, hlen⟩ := hwf
+    have hid : (if version = 9 then 0 else 2) < 65536 := by split <;> omega
+    obtain ⟨h1, h2⟩ := encSet_shape (if version = 9 then 0 else 2) (recs.flatMap encTemplateRec) pad rest hid hlen
+    have hn : recs.length < fuel := by
+      have := flatMap_length_ge recs encTemplateRec 4 (fun r _ => by simp only [encTemplateRec, List.length_append, encBE_length]; omega)
+      simp only [encSSet, encSet, List.length_append, encBE_length] at hfuel
+      omega
+    have hts := templateSet_roundtrip version recs (zeros pad) fuel hrecs (by simpa [zeros_length] using hpad) hn
+    unfold decodeFlowSet
+    simp only [encSSet]
+    rw [h1]
+    have hge : ¬ 4 + (recs.flatMap encTemplateRec).length + pad < 4 := by omega
+    simp only [hge, if_false]
+    rw [h2]
+    have hcond : ((if version = 9 then 0 else 2) = 0 ∧ version = 9 ∨ (if version = 9 then 0 else 2) = 2 ∧ version = 10) := by
+      rcases hv with hv | hv <;> simp [hv]
+    simp only [hcond, if_true, hts]
+    refine ⟨_, rfl, ?_, rfl, ?_, rfl⟩
+    · simp [expSet, setLen, encSSet, encSet, zeros_length]
+      omega
+    · simp [setStore, announces, List.map_map, Function.comp_def]
+  | v9opts recs pad =>
+    obtain ⟨hv, hrecs, hpad, hlen⟩ := hwf
+    subst hv
+    obtain ⟨h1, h2⟩ := encSet_shape 1 (recs.flatMap encV9OptsRec) pad rest (by decide) hlen
+    have hn : recs.length < fuel := by
+      have := flatMap_length_ge recs encV9OptsRec 4 (fun r _ => by simp only [encV9OptsRec, List.length_append, encBE_length]; omega)
+      simp only [encSSet, encSet, List.length_append, encBE_length] at hfuel
+      omega
+    have hts := optionsTemplateSet_roundtrip_v9 recs (zeros pad) fuel hrecs (by simpa [zeros_length] using hpad) hn
+    unfold decodeFlowSet
+    simp only [encSSet]
+    rw [h1]
+    have hge : ¬ 4 + (recs.flatMap encV9OptsRec).length + pad < 4 := by omega
+    simp only [hge, if_false]
+    rw [h2]
+    simp only [show ¬ ((1:Nat) = 0 ∧ (9:Nat) = 9 ∨ (1:Nat) = 2 ∧ (9:Nat) = 10) by decide, if_false,
+      show ((1:Nat) = 1 ∧ (9:Nat) = 9) by decide, if_true, hts]
+    refine ⟨_, rfl, ?_, rfl, ?_, rfl⟩
+    · simp [expSet, setLen, encSSet, encSet, zeros_length]
+      omega
+    · simp [setStore, announces, List.map_map, Function.comp_def]
+  | ipfixopts recs pad =>
+    obtain ⟨hv, hrecs, hpad, hlen⟩ := hwf
+    subst hv
+    obtain ⟨h1, h2⟩ := encSet_shape 3 (recs.flatMap encIPFIXOptsRec) pad rest (by decide) hlen
+    have hn : recs.length < fuel := by
+      have := flatMap_length_ge recs encIPFIXOptsRec 4 (fun r _ => by simp only [encIPFIXOptsRec, List.length_append, encBE_length]; omega)
+      simp only [encSSet, encSet, List.length_append, encBE_length] at hfuel
+      omega
+    have hts := optionsTemplateSet_roundtrip_ipfix recs (zeros pad) fuel hrecs (by simpa [zeros_length] using hpad) hn
+    unfold decodeFlowSet
+    simp only [encSSet]
+    rw [h1]
+    have hge : ¬ 4 + (recs.flatMap encIPFIXOptsRec).length + pad < 4 := by omega
+    simp only [hge, if_false]
+    rw [h2]
+    simp only [show ¬ ((3:Nat) = 0 ∧ (10:Nat) = 9 ∨ (3:Nat) = 2 ∧ (10:Nat) = 10) by decide, if_false,
+      show ¬ ((3:Nat) = 1 ∧ (10:Nat) = 9) by decide, show ((3:Nat) = 3 ∧ (10:Nat) = 10) by decide, if_true, hts]
+    refine ⟨_, rfl, ?_, rfl, ?_, rfl⟩
+    · simp [expSet, setLen, encSSet, encSet, zeros_length]
+      omega
+    · simp [setStore, announces, List.map_map, Function.comp_def]
+  | data tid tpl records pad =>
+    obtain ⟨hlo, hhi, hget, hrecs, hpos, hpad, hlen⟩ := hwf
+    obtain ⟨h1, h2⟩ := encSet_shape tid (records.flatMap (encRecord tpl)) pad rest hhi hlen
+    have hn : records.length < fuel := by
+      have := flatMap_length_ge records (encRecord tpl) 1 (fun r hr => by
+        have := encRecord_length_ge tpl r (hrecs r hr); omega)
+      simp only [encSSet, encSet, List.length_append, encBE_length] at hfuel
+      omega
+    have hts := dataSet_roundtrip tpl records (zeros pad) fuel hrecs hpos (by simpa [zeros_length] using hpad) hn
+    unfold decodeFlowSet
+    simp only [encSSet]
+    rw [h1]
+    have hge : ¬ 4 + (records.flatMap (encRecord tpl)).length + pad < 4 := by omega
+    simp only [hge, if_false]
+    rw [h2]
+    have c1 : ¬ (tid = 0 ∧ version = 9 ∨ tid = 2 ∧ version = 10) := by omega
+    have c2 : ¬ (tid = 1 ∧ version = 9) := by omega
+    have c3 : ¬ (tid = 3 ∧ version = 10) := by omega
+    simp only [c1, c2, c3, if_false, ge_iff_le, hlo, if_true, hget, hts]
+    refine ⟨_, rfl, ?_, rfl, ?_, rfl⟩
+    · simp [expSet, setLen, encSSet, encSet, zeros_length]
+      omega
+    · simp [setStore, announces, addTemplates]
+  | optsData tid scopes options records pad =>
+    obtain ⟨hlo, hhi, hget, hrecs, hpos, hpad, hlen⟩ := hwf
+    obtain ⟨h1, h2⟩ := encSet_shape tid (records.flatMap fun r => encRecord scopes r.1 ++ encRecord options r.2) pad rest hhi hlen
+    have hn : records.length < fuel := by
+      have := flatMap_length_ge records (fun r => encRecord scopes r.1 ++ encRecord options r.2) 1 (fun r hr => by
+        have a := encRecord_length_ge scopes r.1 (hrecs r hr).1
+        have b := encRecord_length_ge options r.2 (hrecs r hr).2
+        simp only [List.length_append]; omega)
+      simp only [encSSet, encSet, List.length_append, encBE_length] at hfuel
+      omega
+    have hts := optionsDataSet_roundtrip scopes options records (zeros pad) fuel hrecs hpos (by simpa [zeros_length] using hpad) hn
+    unfold decodeFlowSet
+    simp only [encSSet]
+    rw [h1]
+    have hge : ¬ 4 + (records.flatMap fun r => encRecord scopes r.1 ++ encRecord options r.2).length + pad < 4 := by omega
+    simp only [hge, if_false]
+    rw [h2]
+    have c1 : ¬ (tid = 0 ∧ version = 9 ∨ tid = 2 ∧ version = 10) := by omega
+    have c2 : ¬ (tid = 1 ∧ version = 9) := by omega
+    have c3 : ¬ (tid = 3 ∧ version = 10) := by omega
+    rcases hget with hget | hget
+    · simp only [c1, c2, c3, if_false, ge_iff_le, hlo, if_true, hget, hts]
+      refine ⟨_, rfl, ?_, rfl, ?_, rfl⟩
+      · simp [expSet, setLen, encSSet, encSet, zeros_length]
+        omega
+      · simp [setStore, announces, addTemplates]
+    · simp only [c1, c2, c3, if_false, ge_iff_le, hlo, if_true, hget, hts]
+      refine ⟨_, rfl, ?_, rfl, ?_, rfl⟩
+      · simp [expSet, setLen, encSSet, encSet, zeros_length]
+        omega
+      · simp [setStore, announces, addTemplates]
+
+/-! ### messages -/
+
+def SetsWF (version dom : Nat) : Store → List SSet → Prop
+  | _, [] => True
+  | s, set :: rest => SetWF version dom s set ∧ SetsWF version dom (setStore version dom s set) rest
+
+/-- the store after a whole message -/
+def storeAfter (version dom : Nat) (s : Store) (sets : List SSet) : Store := sets.foldl (setStore version dom) s
+
+private theorem encSSet_length_ge (version : Nat) (set : SSet) : 4 ≤ (encSSet version set).length := by
+  cases set <;> simp only [encSSet, encSet, List.length_append, encBE_length] <;> omega
+
+/-- DecodeMessageCommon on the concatenation of the encoded sets: several sets per message, the
+    templates announced by one set are in force for the next ones -/
+theorem messageCommon_roundtrip (version dom size startLen : Nat) (sets : List SSet) (s : Store) (i fuel : Nat)
+    (hwf : SetsWF version dom s sets) (hfuel : sets.length < fuel)
+    (h9 : version = 9 → i + sets.length ≤ size)
+    (h10 : version = 10 → (sets.flatMap (encSSet version)).length ≤ startLen ∧ startLen ≤ size ∧ startLen < 65536)
+    (hv : version = 9 ∨ version = 10) :
+    decodeSets version dom size startLen fuel i s (sets.flatMap (encSSet version)) =
+      ⟨sets.map (expSet version), false, storeAfter version dom s sets, none⟩ := by
+  induction sets generalizing s i fuel with
+  | nil =>
+    cases fuel with
+    | zero => simp at hfuel
+    | succ fuel => simp [decodeSets, storeAfter]
+  | cons set rest ih =>
+    cases fuel with
+    | zero => simp at hfuel
+    | succ fuel =>
+      obtain ⟨hset, hrest⟩ := hwf
+      simp only [List.flatMap_cons, List.map_cons]
+      unfold decodeSets
+      have hlen4 := encSSet_length_ge version set
+      have hpos : 0 < (encSSet version set ++ List.flatMap (encSSet version) rest).length := by
+        simp only [List.length_append]; omega
+      have hcond : ((i < size ∧ version = 9) ∨ ((startLen - (encSSet version set ++ List.flatMap (encSSet version) rest).length) % 65536 < size ∧ version = 10)) := by
+        rcases hv with hv | hv
+        · left
+          have := h9 hv
+          simp only [List.length_cons] at this
+          exact ⟨by omega, hv⟩
+        · right
+          obtain ⟨a, b, c⟩ := h10 hv
+          simp only [List.flatMap_cons] at a
+          refine ⟨?_, hv⟩
+          have : (startLen - (encSSet version set ++ List.flatMap (encSSet version) rest).length) < 65536 := by omega
+          rw [Nat.mod_eq_of_lt this]
+          omega
+      simp only [hcond, hpos, and_self, if_true]
+      obtain ⟨o, ho, hfs, htnf, hst, hr⟩ := flowSet_roundtrip version dom s set (List.flatMap (encSSet version) rest)
+        ((encSSet version set ++ List.flatMap (encSSet version) rest).length + 2) hset
+        (by simp only [List.length_append]; omega)
+      rw [ho]
+      simp only
+      rw [hr, hst]
+      have := ih (setStore version dom s set) (i + 1) fuel hrest (by simpa using hfuel)
+        (fun hv => by have := h9 hv; simp only [List.length_cons] at this; omega)
+        (fun hv => by
+          obtain ⟨a, b, c⟩ := h10 hv
+          simp only [List.flatMap_cons, List.length_append] at a
+          exact ⟨by omega, b, c⟩)
+      rw [this]
+      simp [hfs, htnf, storeAfter]
+
+/-- well-formed abstract message against an initial template store -/
+def MsgWF (s : Store) (m : Msg) : Prop :=
+  (m.version = 9 ∨ m.version = 10) ∧ m.count < 65536 ∧ m.uptime < 2 ^ 32 ∧ m.time < 2 ^ 32 ∧ m.seq < 2 ^ 32 ∧
+  m.domain < 2 ^ 32 ∧ SetsWF m.version m.domain s m.sets ∧
+  (m.version = 9 → m.sets.length ≤ m.count) ∧
+  (m.version = 10 → 16 + (m.sets.flatMap (encSSet m.version)).length < 65536)
+
+/-- **C03** — decode (encode M) = M: header fields, the sequence of sets, every template and
+    options-template record, every data and options-data record with every field value, and the
+    template store afterwards; nothing is reported missing and no error is raised. -/
+theorem roundtrip (s : Store) (m : Msg) (hwf : MsgWF s m) :
+    decodeMessageVersion s (encode m) =
+      ⟨expected m, false, storeAfter m.version m.domain s m.sets, none⟩ := by
+  obtain ⟨hv, hc, hu, ht, hs, hd, hsets, h9, h10⟩ := hwf
+  have hn : m.sets.length < (m.sets.flatMap (encSSet m.version)).length + 2 := by
+    have := flatMap_length_ge m.sets (encSSet m.version) 4 (fun x _ => encSSet_length_ge m.version x)
+    omega
+  rcases hv with hv | hv
+  · -- NetFlow v9
+    unfold decodeMessageVersion encode
+    simp only [hv, if_true, List.append_assoc]
+    rw [readU_enc _ (by decide)]
+    simp only [if_true, decodeMessageNetFlow]
+    have hf : Fits [2, 4, 4, 4, 4] [m.count, m.uptime, m.time, m.seq, m.domain] := by
+      simp only [Fits, Nat.reducePow, and_true] at *; omega
+    have := readFields_enc [2, 4, 4, 4, 4] [m.count, m.uptime, m.time, m.seq, m.domain] (m.sets.flatMap (encSSet 9)) hf
+    simp only [encFields, List.append_nil, List.append_assoc] at this
+    rw [this]
+    simp only
+    have hmc := messageCommon_roundtrip 9 m.domain m.count (m.sets.flatMap (encSSet 9)).length m.sets s 0
+      ((m.sets.flatMap (encSSet 9)).length + 2) (hv ▸ hsets) (hv ▸ hn) (fun _ => by have := h9 hv; omega)
+      (fun h => by cases h) (Or.inl rfl)
+    rw [hmc]
+    simp [expected, hv]
+  · -- IPFIX
+    have hlen := h10 hv
+    unfold decodeMessageVersion encode
+    have hne : ¬ m.version = 9 := by omega
+    simp only [hne, if_false, List.append_assoc]
+    rw [readU_enc _ (by decide)]
+    simp only [show ¬ ((10:Nat) = 9) by decide, if_false, if_true, decodeMessageIPFIX]
+    rw [hv] at hlen ⊢
+    have hf : Fits [2, 4, 4, 4] [16 + (m.sets.flatMap (encSSet 10)).length, m.time, m.seq, m.domain] := by
+      simp only [Fits, Nat.reducePow, and_true] at *; omega
+    have := readFields_enc [2, 4, 4, 4] [16 + (m.sets.flatMap (encSSet 10)).length, m.time, m.seq, m.domain] (m.sets.flatMap (encSSet 10)) hf
+    simp only [encFields, List.append_nil, List.append_assoc] at this
+    rw [this]
+    simp only
+    have hsize : (16 + (m.sets.flatMap (encSSet 10)).length + 65536 - 16) % 65536 = (m.sets.flatMap (encSSet 10)).length := by omega
+    rw [hsize]
+    have hmc := messageCommon_roundtrip 10 m.domain (m.sets.flatMap (encSSet 10)).length (m.sets.flatMap (encSSet 10)).length m.sets s 0
+      ((m.sets.flatMap (encSSet 10)).length + 2) (hv ▸ hsets) (hv ▸ hn) (fun h => by cases h)
+      (fun _ => ⟨Nat.le_refl _, Nat.le_refl _, by omega⟩) (Or.inr rfl)
+    rw [hmc]
+    simp [expected, hv]
+
+/-! ### non-vacuity: a concrete message with every kind of set meets the hypotheses -/
+
+def RecordWF.dec : (fs : List SField) → (vs : List SValue) → Decidable (RecordWF fs vs)
+  | [], [] => isTrue trivial
+  | f :: fs, v :: vs =>
+    match RecordWF.dec fs vs with
+    | isTrue h => if hv : ValueWF f v then isTrue ⟨hv, h⟩ else isFalse (fun h' => hv h'.1)
+    | isFalse h => isFalse (fun h' => h h'.2)
+  | [], _ :: _ => isFalse (fun h => h)
+  | _ :: _, [] => isFalse (fun h => h)
+instance (fs : List SField) (vs : List SValue) : Decidable (RecordWF fs vs) := RecordWF.dec fs vs
+instance (v : Nat) (r : Nat × List SField) : Decidable (TemplateRecWF v r) := by unfold TemplateRecWF; infer_instance
+instance (v : Nat) (r : Nat × List SField × List SField) : Decidable (OptsRecWF v r) := by unfold OptsRecWF; infer_instance
+instance (v d : Nat) (s : Store) (set : SSet) : Decidable (SetWF v d s set) := by
+  cases set <;> unfold SetWF <;> infer_instance
+def SetsWF.dec (v d : Nat) : (s : Store) → (sets : List SSet) → Decidable (SetsWF v d s sets)
+  | _, [] => isTrue trivial
+  | s, set :: rest =>
+    match SetsWF.dec v d (setStore v d s set) rest with
+    | isTrue h => if hs : SetWF v d s set then isTrue ⟨hs, h⟩ else isFalse (fun h' => hs h'.1)
+    | isFalse h => isFalse (fun h' => h h'.2)
+instance (v d : Nat) (s : Store) (sets : List SSet) : Decidable (SetsWF v d s sets) := SetsWF.dec v d s sets
+instance (s : Store) (m : Msg) : Decidable (MsgWF s m) := by unfold MsgWF; infer_instance
+
+def sampleIPFIX : Msg := ⟨10, 0, 0, 1700000000, 42, 7, [
+  .template [(256, [⟨8, 4, none⟩, ⟨1, 0xffff, none⟩, ⟨5, 2, some 9⟩])] 0,
+  .ipfixopts [(257, [⟨1, 4, none⟩], [⟨34, 4, none⟩])] 2,
+  .data 256 [⟨8, 4, none⟩, ⟨1, 0xffff, none⟩, ⟨5, 2, some 9⟩]
+     [[⟨[10, 0, 0, 1], false⟩, ⟨[1, 2, 3], false⟩, ⟨[0, 7], false⟩], [⟨[10, 0, 0, 2], false⟩, ⟨[], true⟩, ⟨[0, 8], false⟩]] 3,
+  .optsData 257 [⟨1, 4, none⟩] [⟨34, 4, none⟩] [([⟨[0, 0, 0, 1], false⟩], [⟨[0, 0, 0, 100], false⟩])] 0]⟩
+
+def sampleV9 : Msg := ⟨9, 3, 1000, 1700000000, 1, 2, [
+  .template [(300, [⟨8, 4, none⟩, ⟨7, 2, none⟩])] 0,
+  .v9opts [(301, [⟨1, 4, none⟩], [⟨34, 4, none⟩, ⟨50, 4, none⟩])] 2,
+  .data 300 [⟨8, 4, none⟩, ⟨7, 2, none⟩] [[⟨[10, 0, 0, 1], false⟩, ⟨[0, 80], false⟩]] 2]⟩
+
+example : MsgWF [] sampleIPFIX ∧ MsgWF [] sampleV9 := by decide +kernel
+
+end Goflow.C03
